@@ -249,7 +249,7 @@ class Corr:
 
         test = 1 * self
         test.gamma_method()
-        if not all([o.is_zero_within_error(3) for o in test.content[0]]):
+        if test.content[0] is not None and not all([o.is_zero_within_error(3) for o in test.content[0]]):
             warnings.warn("Correlator does not seem to be anti-symmetric around x0=0.", RuntimeWarning)
 
         newcontent = [self.content[0]]
